@@ -234,7 +234,7 @@ def random_campaign(seed, count, props, fixed=None):
     for n in range(count):
         kind = ab.BLOCK_KINDS[n % len(ab.BLOCK_KINDS)]
         bseed = rng.randrange(10 ** 9)
-        r, style = n % 5, n % 6
+        r, style = n % 5, n % 12
         if fixed:
             kind, bseed, r, style = fixed["block_kind"], fixed["block_seed"], fixed["r"], fixed.get("style", 0)
         fmt, b = random_block(random.Random(bseed), kind)
